@@ -828,7 +828,7 @@ func multiPlans(g *gen, thorough bool) []Plan {
 	}
 	n, rounds := 50, 3
 	if thorough {
-		n, rounds = 400, 5
+		n, rounds = 300, 5
 	}
 	for i := 0; i < n; i++ {
 		g.nextID = 0
